@@ -68,6 +68,9 @@ structure St where
   conn : Option Nat := none
   /-- `Outbound._connection` -/
   outConn : Option Nat := none
+  /-- `Outbound._paused`: the transport of the connection called `pauseProducing()` (send buffer
+      full); also set while there is no connection -/
+  outPaused : Bool := true
   pings : List PingRec := []
   nextPing : Nat := 0
   nextConn : Nat := 0
@@ -98,14 +101,22 @@ def Res.andThen (r : Res) (f : St → Res) : Res :=
 
 /-! ## `Manager.send_ping`, `_send_ping_reset_timer`, `_signal_reconnect` -/
 
+/-- `Outbound.send_if_connected(r)` for the un-queued records (Ping/Pong/Ack): the connection
+    whose `send_record` gets `r`.  The guard is the one the translator found in the source:
+    exactly `if self._connection:` (`Flags.send_if_connected_ignores_pause`) — a paused Outbound
+    still writes Pings — or anything else, read as "and not paused". -/
+def sendIfConnected (s : St) : Option Nat :=
+  if Flags.send_if_connected_ignores_pause then s.outConn
+  else if s.outPaused then none else s.outConn
+
 /-- `send_ping(os.urandom(4), got_pong)`: registers the ping, `send_if_connected(Ping(id))` -/
 def sendPing (s : St) : St :=
   let id := s.nextPing
   { s with
-    pings := s.pings ++ [{ id := id, sent := s.now, wire := s.outConn }],
+    pings := s.pings ++ [{ id := id, sent := s.now, wire := sendIfConnected s }],
     nextPing := id + 1,
     lastPing := s.now,
-    wireLog := match s.outConn with
+    wireLog := match sendIfConnected s with
       | some c => s.wireLog ++ [(c, id, s.now)]
       | none => s.wireLog }
 
@@ -181,8 +192,8 @@ def connMade (cfg : Cfg) (s0 : St) : Res :=
   r1.andThen fun s2 =>
   -- self.connection_made()
   (mgrInput false .connection_made s2).andThen fun s3 =>
-  -- self._connection = c; inbound.use_connection(c); outbound.use_connection(c)
-  ({ s3 with conn := some c, outConn := some c, madeAt := s3.now, dropped := false }, none)
+  -- self._connection = c; inbound.use_connection(c); outbound.use_connection(c) (→ resumeProducing)
+  ({ s3 with conn := some c, outConn := some c, outPaused := false, madeAt := s3.now, dropped := false }, none)
 
 /-- `connector_connection_lost()` followed by `_stop_using_connection()` -/
 def connLost (cfg : Cfg) (s : St) : Res :=
@@ -195,7 +206,8 @@ def connLost (cfg : Cfg) (s : St) : Res :=
   match s2.outConn with
   | none => (s2, some .attributeError)
   | some _ =>
-    let s3 := { s2 with outConn := none }
+    -- … `self._connection = None; self.pauseProducing()`
+    let s3 := { s2 with outConn := none, outPaused := true }
     if s3.role = some true then mgrInput false .connection_lost_leader s3
     else mgrInput false .connection_lost_follower s3
 
@@ -228,6 +240,8 @@ inductive Op where
   | reconnecting             -- `rx_RECONNECTING()`
   | reconnect                -- `rx_RECONNECT()`
   | pong (id : Nat)          -- `got_record(Pong(id))`
+  | pause                    -- the connection's transport: `outbound.pauseProducing()`
+  | resume                   -- the connection's transport: `outbound.resumeProducing()`
   deriving DecidableEq, Repr
 
 def step (cfg : Cfg) (s : St) : Op → Res
@@ -240,6 +254,8 @@ def step (cfg : Cfg) (s : St) : Op → Res
   | .reconnecting => mgrInput false .rx_RECONNECTING s
   | .reconnect => mgrInput false .rx_RECONNECT s
   | .pong id => gotPong cfg id s
+  | .pause => ({ s with outPaused := true }, none)
+  | .resume => ({ s with outPaused := false }, none)
 
 /-- run a trace; stops at the first exception -/
 def run (cfg : Cfg) : St → List Op → Res
@@ -295,6 +311,8 @@ def legal (s : St) : Op → Bool
   | .reconnecting => s.mgr == .FLUSHING
   | .reconnect => s.mgr == .CONNECTED || s.mgr == .CONNECTING || s.mgr == .LONELY
   | .pong _ => s.conn.isSome
+  | .pause => s.conn.isSome
+  | .resume => s.conn.isSome
 
 /-! ## call skeletons the bodies above mirror (checked against `Gen.Skel` in `Props.C16`) -/
 
@@ -326,7 +344,7 @@ def skeletonOK : Bool :=
 
 ```
 cfg <T>            -> ok            (ping interval in ticks, T ≥ 1)
-start | please 0/1 | made | lost | stop | reconnecting | reconnect | pong <k> | adv <n>
+start | please 0/1 | made | lost | stop | reconnecting | reconnect | pong <k> | pause | resume | adv <n>
                    -> [<Exception> ]<state summary>
 ```
 -/
@@ -341,7 +359,7 @@ def showSt (s : St) : String :=
     (fun (c, i, t) => s!"{c}:{i}@{t}"))
   let drops := ";".intercalate (s.drops.map (fun (c, t) => s!"{c}@{t}"))
   let ab := ";".intercalate (s.abandons.map (fun (c, t) => s!"{c}@{t}"))
-  s!"t={s.now} M={Manager.State.name s.mgr} role={role} TT={tt} timer={showOpt s.timer} conn={showOpt s.conn} out={showOpt s.outConn} pings=[{pings}] nwire={s.wireLog.length} wire=[{wire}] drops=[{drops}] abandons=[{ab}]"
+  s!"t={s.now} M={Manager.State.name s.mgr} role={role} TT={tt} timer={showOpt s.timer} conn={showOpt s.conn} out={showOpt s.outConn} paused={s.outPaused} pings=[{pings}] nwire={s.wireLog.length} wire=[{wire}] drops=[{drops}] abandons=[{ab}]"
 
 structure DrvSt where
   T : Nat
@@ -376,6 +394,8 @@ def drvStep (d : DrvSt) (line : String) : DrvSt × String :=
     match k.toNat? with
     | some id => doOp (.pong id)
     | none => (d, "bad-op")
+  | ["pause"] => doOp .pause
+  | ["resume"] => doOp .resume
   | ["adv", n] =>
     match n.toNat? with
     | some k =>
